@@ -142,6 +142,10 @@ def gen_case(rng, tier, ctx, i):
         ctx.count("count:deep-models")
         return {"recipe": rec, "seed": rng.getrandbits(32)}
     o = common.varied_opts(rng, tier)
+    if rng.random() < 0.06:
+        from . import confgen
+        ctx.count("count:configurator-models")
+        return {"recipe": confgen.gen_config(rng), "seed": rng.getrandbits(32)}     # a configurator is a model too (often one that has already answered a structural question)
     rec = common.model_case(rng, tier, o)
     if rec is None:
         return None
